@@ -81,10 +81,11 @@ def main():
             cmd = f"./bin/upfcheck -prop {pid}"
             if pid in py_built and pid not in built:
                 cmd = f"python3 checker/py/route_rules.py --prop {pid}"
+            dash = "--" if cmd.startswith("python3") else "-"
             checks.append({
                 "property_id": pid,
-                "quick_cmd": cmd + " -tier quick",
-                "thorough_cmd": cmd + " -tier thorough",
+                "quick_cmd": cmd + f" {dash}tier quick",
+                "thorough_cmd": cmd + f" {dash}tier thorough",
                 "evidence_file": f"evidence/{pid}.json",
                 "replay_cmd_template": "cat {path}",
                 "engine": "upfcheck",
